@@ -24,6 +24,9 @@ Inductive case :=
    the fake kube client, each awaited on the authorizer's informer) and impersonation requests sent
    through CreateCertificate; [obs] = granted? per request, in order *)
 | History (id : N) (trusted : list (string * string)) (ops : list hop) (obs : list bool)
+(* Server.CreateCertificate over a CertificateAuthority that answers Sign / SignWithCertChain with a
+   *caerror.Error of the given kind: observed gRPC status code (0 = OK, 999 = the handler panicked) *)
+| ErrMap (id : N) (k : ca_err_kind) (obs : N)
 (* JwtAuthenticator.Authenticate with a token carrying these claims; [verified] = the token is one
    go-oidc's verifier accepts (right issuer and key, not expired) *)
 | Oidc (id : N) (verified : bool) (td : string) (audiences : list string) (sub : string) (aud : aud_claim) (obs : authn_out)
@@ -43,7 +46,7 @@ Inductive case :=
 
 Definition case_id c :=
   match c with
-  | Create id _ _ _ _ _ _ _ _ _ => id | CreateTd id _ _ _ _ _ _ _ _ _ => id | History id _ _ _ => id | Oidc id _ _ _ _ _ _ => id | KubeJwt id _ _ _ _ => id
+  | Create id _ _ _ _ _ _ _ _ _ => id | CreateTd id _ _ _ _ _ _ _ _ _ => id | History id _ _ _ => id | ErrMap id _ _ => id | Oidc id _ _ _ _ _ _ => id | KubeJwt id _ _ _ _ => id
   | CertAuth id _ _ => id | Xfcc id _ _ _ _ _ => id | NewCA id _ _ _ _ _ => id
   | San id _ _ _ => id | ParseId id _ _ => id
   end.
@@ -134,6 +137,7 @@ Definition model_ok (c : case) : bool :=
   | Create _ iptab env rs na cfg rq t0 t1 obs => create_model_ok iptab env rs na cfg rq t0 t1 obs
   | CreateTd _ _ _ _ _ _ _ _ _ _ => true
   | History _ trusted ops obs => list_eqb Bool.eqb (run_history trusted [] ops) obs
+  | ErrMap _ k obs => N.eqb (grpc_code k) obs
   | Oidc _ verified td auds sub aud obs =>
       authn_eqb (if verified then oidc_authenticate td auds sub aud else AErr) obs
   | KubeJwt _ td found tr obs => authn_eqb (kube_jwt_authenticate td found tr) obs
@@ -290,6 +294,7 @@ Definition prop_ok (c : case) : bool :=
   | Create _ iptab env rs na cfg rq t0 t1 obs => create_prop_part 1 iptab env rs na cfg rq t0 t1 obs
   | CreateTd _ iptab env rs na cfg rq t0 t1 obs => create_prop_part 2 iptab env rs na cfg rq t0 t1 obs
   | History _ trusted ops obs => spec_history trusted [] ops obs
+  | ErrMap _ _ obs => negb (N.eqb obs 0) && negb (N.eqb obs 999)   (* an error status: neither a certificate nor a crash *)
   | Oidc _ verified td auds sub aud obs =>
       authn_no_panic obs &&
       match obs with
